@@ -64,3 +64,27 @@ Example C04_nonvacuous :
   let st := fst (fst (run step init acts)) in
   th st 2%nat = D6 1 2 /\ g_in st = [7] /\ g_out st = [].
 Proof. vm_compute. repeat split; reflexivity. Qed.
+
+(** nikolaev_queue / nikolaev_scq index arithmetic, GENERATED from xenium/detail/nikolaev_scq.hpp (gen/ScqGen.v):
+    the cache-line remapping is a bijection on the ring positions, so two tickets of one round never share a slot
+    and every slot is used; the ticket comparison is a correct signed comparison while tickets are < 2^63 apart *)
+From Coq Require Import Bool.
+From XV Require Import gen.ScqGen Proof.ScqIndex.
+Local Open Scope N_scope.
+
+Theorem C04_scq_remap_bijective : forall m, 1 <= m <= 41 ->
+  let n := 2 ^ m in
+  let shift := if m <=? 3 then 0 else m - 3 in
+  shift = calc_remap_shift (n / 2) /\
+  (forall p1 p2, p1 < n -> p2 < n ->
+     remap_index (2 * p1) shift n = remap_index (2 * p2) shift n -> p1 = p2) /\
+  (forall y, y < n -> exists p, p < n /\ remap_index (2 * p) shift n = y) /\
+  (forall idx, remap_index idx shift n = remap_index (2 * ((idx / 2) mod n)) shift n).
+Proof. exact remap_index_bijective. Qed.
+Print Assumptions C04_scq_remap_bijective.
+
+Theorem C04_scq_diff_signed : forall a b, a < 2 ^ 64 -> b < 2 ^ 64 ->
+  a < b + 2 ^ 63 -> b < a + 2 ^ 63 ->
+  slt 64 (diff a b) 0 = true <-> a < b.
+Proof. exact diff_signed. Qed.
+Print Assumptions C04_scq_diff_signed.
